@@ -78,7 +78,7 @@ pub fn search_login(rng: &mut Rng, u: &str, p: &str, max: usize, fails: &mut Vec
                 if let Some(s) = secret_of(&l) { if pred(&l, &s) { return Some(l); } }
             }
             Err(LoginFail::BadOwnKey) => {}
-            Err(e) => { if fails.len() < 20 { fails.push(format!("{{\"user\":{},\"password\":{},\"tape\":\"{}\",\"error\":\"{:?}\"}}", jstr(u), jstr(p), hex(&tape), e)); } }
+            Err(e) => { if fails.len() < 20 { fails.push(format!("{{\"user\":{},\"password\":{},\"tape\":\"{}\",\"error\":{}}}", jstr(u), jstr(p), hex(&tape), jstr(&format!("{:?}", e)))); } }
         }
     }
     None
